@@ -696,6 +696,9 @@ def property_battery(tn, rng=None, settings=True, ranges='sample'):
     r = range_battery(tn, rng, exact, want, bad, ranges)
     if r:
         return r
+    r = strided_battery(tn, rng, exact, bad, ranges)
+    if r:
+        return r
     if settings:
         cap = max_bond_cap(tn)
         for name, kw in noop_settings(rng, tn, cap):
@@ -708,6 +711,11 @@ def property_battery(tn, rng=None, settings=True, ranges='sample'):
         # … also under spelled ranges and recombined partial contractions (one setting per network)
         name, kw = rng.choice(noop_settings(rng, tn, cap))
         r = range_battery(tn, rng, exact, want, bad, 'sample', kw_name=name, **kw)
+        if r:
+            return r
+        # … and under strided ranges (settings without a mask: the mask has the shape of the contracted network)
+        name, kw = rng.choice([nk for nk in noop_settings(rng, tn, cap) if 'mask' not in nk[1]])
+        r = strided_battery(tn, rng, exact, bad, 'sample', kw_name=name, **kw)
         if r:
             return r
     return None
@@ -768,6 +776,124 @@ def range_battery(tn, rng, exact, want, bad, ranges='sample', kw_name=None, **kw
                 sps = list(dflt); sps[i] = sp
                 for assoc in (('left', 'right') if len(segs) > 2 else ('left',)):
                     r = check(sps, assoc)
+                    if r:
+                        return r
+    return None
+
+
+def strided_spellings(want, step, C):
+    """every (start, stop) spelling — None, in-range, negative-index, clamped out-of-range — whose Python slice
+    resolution with the given step (|step| >= 2) over C columns visits exactly the columns `want`, in that order"""
+    lo, hi, s = min(want), max(want), abs(step)
+    cands = [None]
+    for v in (lo, hi, lo - 1, hi + 1, lo - s + 1, hi + s - 1, lo - s, hi + s, 0, -1, C, C - 1, C + 3, -C, -C - 1, -C - 4,
+              lo - C, hi - C, hi + 1 - C, lo - 1 - C):
+        if v not in cands:
+            cands.append(v)
+    return [(a, b, step) for a in cands for b in cands if list(range(*slice(a, b, step).indices(C))) == want]
+
+
+def embed_strided(net, lo, hi, step, lead, trail, rng):
+    """a network whose columns lead, lead+|step|, … are the columns lo..hi-1 of `net`; every other column is a filler
+    (a scrambled copy of some column of `net`) that a range of that step never visits.  The network always has more
+    columns than are visited, so a contraction over the visited columns is a PARTIAL contraction.
+    Returns (network, visited positions ascending)."""
+    R, K = net.shape
+    k, s = hi - lo, abs(step)
+    C = lead + (k - 1) * s + 1 + trail
+    if C == k:
+        C += 1
+    pos = [lead + j * s for j in range(k)]
+    tn = np.empty((R, C), dtype=object)
+    for c in range(C):
+        if c in pos:
+            src, scramble = lo + pos.index(c), False
+        else:
+            src, scramble = rng.randrange(K), True
+        for r in range(R):
+            t = net[r, src]
+            if t is not None and scramble:
+                t = -t.reshape(-1)[::-1].reshape(t.shape) + 1
+            tn[r, c] = None if t is None else t.copy()
+    return tn, pos
+
+
+class StridedParts(Parts):
+    """partial contractions by spelled range, every part over its own network: spelling (start, stop, step, index)"""
+
+    def __init__(self, tns, **kw):
+        Parts.__init__(self, None, **kw)
+        self.tns = tns
+
+    def part(self, sp):
+        self.tn = self.tns[sp[3]]
+        return Parts.part(self, sp)
+
+
+def strided_battery(tn, rng, exact, bad, mode='sample', kw_name=None, **kw):
+    """ranges with |step| >= 2: such a range visits only some columns, so (on a network with more columns than are
+    visited) it is a partial contraction that must return (MPS/MPO, multiplier) of the visited columns alone.  The
+    columns of `tn` are cut into consecutive segments; a segment is placed at the strided positions of a larger
+    network (fillers in between, before and after), contracted there by a spelled start/stop/step that visits exactly
+    these positions (forwards or backwards, from a network end or from inside, stop None / clamped / exact), and
+    the results are recombined with contract_pairwise / inner_product and the multipliers: that must be the exact
+    value of `tn`.  An exception or a bare scalar instead of the pair is a failure of the property on that input."""
+    R, K = tn.shape
+    if K < 2:
+        return None
+    okp = ('ok ' + str(round_like_impl(exact)), 'ok ' + str(exact))
+
+    def check(cuts, plan, assoc, pick):
+        """plan: per segment None (contracted on tn itself, default spelling) or (step, lead, trail)"""
+        segs = list(zip(cuts, cuts[1:]))
+        tns, choices, descr = [], [], []
+        for i, ((lo, hi), pl) in enumerate(zip(segs, plan)):
+            if pl is None:
+                tns.append(tn)
+                choices.append([default_spelling(lo, hi, K, last=(i == len(segs) - 1))])
+                descr.append(None)
+            else:
+                step, lead, trail = pl
+                e, pos = embed_strided(tn, lo, hi, step, lead, trail, rng)
+                tns.append(e)
+                choices.append(strided_spellings(pos if step > 0 else pos[::-1], step, e.shape[1]))
+                descr.append(wire_net(e))
+        parts = StridedParts(tns, **kw)
+        for combo in pick(choices):
+            sps = [tuple(sp) + (i,) for i, sp in enumerate(combo)]
+            got = parts.combine(sps, assoc)
+            if got not in okp:
+                return bad('partial contractions over ranges with |step| >= 2 (segments of the network placed at the '
+                           'strided columns of larger networks), recombined with contract_pairwise / inner_product '
+                           'and the multipliers, differ from the exact value', got, call='strided',
+                           parts=[{'columns': [lo, hi], 'range': list(sp[:3]),
+                                   'net_shape': d[0] if d else None, 'net_sites': d[1] if d else None}
+                                  for (lo, hi), sp, d in zip(segs, sps, descr)],
+                           assoc=assoc, expected_value=okp[0], **({'setting': kw_name} if kw_name else {}))
+        return None
+    steps = [2, -2, 2, -2, 3, -3, 4, -5, K + 1, -K - 2]
+    if mode == 'sample':
+        for _ in range(2):
+            m = 2 if K == 2 or rng.random() < 0.7 else 3
+            cuts = rng.choice([p for p in partitions(K, m) if len(p) == m + 1])
+            plan = [None] * m
+            for i in rng.sample(range(m), rng.choice([1, 1, m])):
+                s = rng.choice(steps)
+                plan[i] = (s, rng.choice([0, 0, 0, 1, 2]), rng.choice([0, 0, 0, 1, abs(s) - 1]))
+            # one spelling per segment: the plainest one (None wherever possible) half of the time, else any
+            r = check(cuts, plan, rng.choice(['left', 'right']),
+                      lambda ch: [[c[0] if rng.random() < 0.5 else rng.choice(c) for c in ch]])
+            if r:
+                return r
+        return None
+    for cuts in partitions(K, 2):
+        for i in (0, 1):
+            for s in (2, -2, 3, -3):
+                for lead, trail in ((0, 0), (1, 1)):
+                    plan = [None, None]
+                    plan[i] = (s, lead, trail)
+                    r = check(cuts, plan, 'left',
+                              lambda ch: [[c[0] if j != i else sp for j, c in enumerate(ch)] for sp in ch[i]])
                     if r:
                         return r
     return None
@@ -1964,9 +2090,21 @@ def replay(ctx, path):
 
 def replay_ranges(tn, inp):
     """re-evaluate the recorded spelled-range evaluation (full range or recombined partial contractions)"""
+    import random
+    if inp.get('call') == 'strided':
+        kw = {}
+        if inp.get('setting'):
+            kw = dict(noop_settings(random.Random(0), tn, max_bond_cap(tn)))[inp['setting']]
+        exact = exact_value(tn)
+        tns = [tn if p['net_shape'] is None else parse_net(p['net_shape'], p['net_sites'], inp.get('dtype', 'int64'))
+               for p in inp['parts']]
+        sps = [tuple(p['range']) + (i,) for i, p in enumerate(inp['parts'])]
+        got = StridedParts(tns, **kw).combine(sps, inp.get('assoc', 'left'))
+        ok = got in ('ok ' + str(round_like_impl(exact)), 'ok ' + str(exact))
+        return None if ok else {'what': 'strided parts {}: got {} exact {}'.format(
+            [(p['net_shape'], p['range']) for p in inp['parts']], got, exact)}
     if not inp.get('ranges'):
         return None
-    import random
     kw = {}
     if inp.get('setting'):
         kw = dict(noop_settings(random.Random(0), tn, max_bond_cap(tn)))[inp['setting']]
